@@ -107,15 +107,18 @@ def run_case(case):
     import vectorizers as V
     items = [(tuple(p), list(l)) for p, l in case["items"]]
     radius, kernel, orient = case["radius"], case["kernel"], case["orientation"]
+    kargs = case.get("kargs") or {}
     pname, pkw, mask, nullify = PRUNINGS[case["pruning"]]
     all_labels = [l for _, ls in items for l in ls]
     kept = set(all_labels) - set(pkw.get("ignored_tokens", []))
     if mask is None and not kept:
         return res(rej=True, out="empty-vocabulary")
-    exp = reference(items, radius, kernel, orient, kept, mask, nullify)
+    exp = reference(items, radius, kernel, orient, kept, mask, nullify, kargs)
     labels = sorted(kept) + ([mask] if mask is not None else [])
     X = [make_item(p, l) for p, l in items]
     kw = dict(window_radius=radius, kernel_function=kernel, window_orientation=orient)
+    if kargs:
+        kw["kernel_args"] = dict(kargs)
     if "ignored_tokens" in pkw:
         kw["ignored_tokens"] = set(pkw["ignored_tokens"])
     if mask is not None:
@@ -173,6 +176,13 @@ def _cases(tier):
         for pr in range(len(PRUNINGS)):
             for a, b in itertools.product(small, repeat=2):
                 yield {"items": [a, b], "radius": r, "kernel": k, "orientation": o, "pruning": pr}
+    # kernel arguments: offsets (weights with leading / interior zeros) and normalisation, on deeper trees
+    deep = [it for it in all_items(nmax, alpha) if len(it[0]) >= 3][:: (3 if tier == "quick" else 1)]
+    for (r, k, kargs) in ((3, "flat", {"offset": 1}), (4, "flat", {"offset": 2}), (4, "harmonic", {"offset": 2}), (3, "geometric", {"normalize": True}), (4, "harmonic", {"offset": 3, "normalize": True})):
+        for o in ("after", "directional", "symmetric"):
+            for pr in (0, 2):
+                for it in deep:
+                    yield {"items": [it], "radius": r, "kernel": k, "orientation": o, "pruning": pr, "kargs": kargs}
     if tier != "quick":
         for it in all_items(3, "abc"):
             for (r, k, o) in cfgs[::3]:
